@@ -90,3 +90,20 @@ pub fn in_rect(r: &Rectangle, p: Point) -> bool {
     let y = p.y as i64;
     x >= l && x < l + w && y >= t && y < t + h
 }
+
+/// (any byte differs, a byte at index >= used differs) — concrete trip count N.
+pub fn bytes_diff<const N: usize>(a: &[u8; N], b: &[u8; N], used: usize) -> (bool, bool) {
+    let mut any = false;
+    let mut tail = false;
+    let mut i = 0;
+    while i < N {
+        if a[i] != b[i] {
+            any = true;
+            if i >= used {
+                tail = true;
+            }
+        }
+        i += 1;
+    }
+    (any, tail)
+}
